@@ -231,6 +231,19 @@ func run(sc *scenario) (coq string, tags []string, err error) {
 	for _, o := range sc.Ops {
 		r.rec.calls = nil
 		ws := istructs.WSID(o.WS)
+		longest := 0
+		if o.Key != nil {
+			longest = len(o.Key.V) / 2
+		}
+		for _, it := range o.Items {
+			longest = max(longest, len(it.Key.V)/2)
+		}
+		if longest > 255 {
+			tagset["long:trailing>255:"+o.Op] = true
+		}
+		if longest > 500 { // pKey+cCols certainly beyond 512 bytes
+			tagset["long:key>512:"+o.Op] = true
+		}
 		switch o.Op {
 		case "put":
 			v := sc.Views[o.View]
